@@ -120,6 +120,24 @@ func (c *client) PushBlob(ctx context.Context, repo string, desc ociregistry.Des
 	if err != nil {
 		return ociregistry.Descriptor{}, err
 	}
+	// net/http only holds us to the declared size when both it and the
+	// content are non-empty: a body known to be empty is sent with a zero
+	// Content-Length whatever we say, and a zero Content-Length with a
+	// non-empty body means "unknown length". Check those cases here so
+	// that a size which disagrees with the content is always refused.
+	switch {
+	case req.Body == http.NoBody || req.ContentLength > 0:
+		// The actual length is known (it's in req.ContentLength).
+		if req.ContentLength != desc.Size {
+			return ociregistry.Descriptor{}, fmt.Errorf("content length %d does not match descriptor size %d: %w", req.ContentLength, desc.Size, ociregistry.ErrSizeInvalid)
+		}
+	case desc.Size == 0:
+		var buf [1]byte
+		if n, _ := io.ReadFull(r, buf[:]); n > 0 {
+			return ociregistry.Descriptor{}, fmt.Errorf("content is not empty but descriptor size is 0: %w", ociregistry.ErrSizeInvalid)
+		}
+		req.Body = http.NoBody
+	}
 	req.URL = urlWithDigest(location, string(desc.Digest))
 	req.ContentLength = desc.Size
 	req.Header.Set("Content-Type", "application/octet-stream")
